@@ -1311,6 +1311,57 @@ func ruleContentSize(c *Check, p *Program, rule string) {
 		ok = false
 		whyS = append(whyS, "Size never returns the parsed content size")
 	}
+	// once the Size flag is known to be set (in a state where a header has been parsed) the result is the size:
+	// no path from the true edge of the flag test to a return of 0
+	for _, b := range fn.Blocks {
+		ifi, isIf := b.Instrs[len(b.Instrs)-1].(*ssa.If)
+		if !isIf {
+			continue
+		}
+		at := atomOf(ifi.Cond, true)
+		if at.Kind != "flag" || at.Name != "Size" {
+			continue
+		}
+		tgt := b.Succs[0]
+		if !at.Val {
+			tgt = b.Succs[1]
+		}
+		// blocks reachable from the flag-is-set side
+		reach := map[*ssa.BasicBlock]bool{}
+		stack := []*ssa.BasicBlock{tgt}
+		for len(stack) > 0 {
+			x := stack[len(stack)-1]
+			stack = stack[:len(stack)-1]
+			if reach[x] {
+				continue
+			}
+			reach[x] = true
+			stack = append(stack, x.Succs...)
+		}
+		zeroReach := false
+		allInstrs(fn, func(in ssa.Instruction) {
+			r, isR := in.(*ssa.Return)
+			if !isR || len(r.Results) != 1 {
+				return
+			}
+			res := r.Results[0]
+			if ph, isPhi := res.(*ssa.Phi); isPhi && ph.Block() == in.Block() {
+				for i, e := range ph.Edges {
+					if k, isK := constUint(e); isK && k == 0 && reach[ph.Block().Preds[i]] {
+						zeroReach = true
+					}
+				}
+				return
+			}
+			if k, isK := constUint(res); isK && k == 0 && reach[in.Block()] {
+				zeroReach = true
+			}
+		})
+		if zeroReach {
+			ok = false
+			whyS = append(whyS, "with the Size flag set a return of 0 is still reachable: some announced sizes are reported as 'no size'")
+		}
+	}
 	c.Cond(ok, rule, "lz4.Reader.Size", p.Pos(fn.Pos()), "Size returns the parsed content size unchanged (or 0)", "returns are 0 or int(FrameDescriptor.ContentSize) under the Size flag", strings.Join(whyS, "; "))
 }
 
